@@ -396,6 +396,18 @@ func (e *Encoder) Encode(payload []byte) []byte {
 	return append(out, box...)
 }
 
+// Ctr is the counter the next frame will be sealed with.
+func (e *Encoder) Ctr() uint64 { return e.ctr }
+
+// SealBox seals one frame body under a key, nonce prefix and counter of the
+// caller's choosing (what an attacker who does not know the session's can do).
+func SealBox(key *[32]byte, prefix *[16]byte, ctr uint64, payload []byte) []byte {
+	var n [24]byte
+	copy(n[:], prefix[:])
+	binary.BigEndian.PutUint64(n[16:], ctr)
+	return secretbox.Seal(nil, payload, &n, key)
+}
+
 type Decoder struct {
 	key     [32]byte
 	prefix  [16]byte
